@@ -135,4 +135,4 @@ def run_any(c):
 
 if __name__ == "__main__":
     import implutil
-    implutil.run_cases(run_any, per_case_s=10)
+    implutil.run_cases(run_any, per_case_s=40)
